@@ -8,8 +8,12 @@ Definition is_boolv (v : val) : bool := match v with XBool _ => true | _ => fals
 Definition is_int_or_float (v : val) : bool := match v with XInt _ | XBool _ | XFloat _ => true | _ => false end.
 Definition is_nonev (v : val) : bool := match v with XNone => true | _ => false end.
 
+(* Variant flag (DESIGN 2.6) v_nti (D21): [false] = the code in /repo: a NewType object left inside an accepted
+   annotation (get_field_types only unwraps the outermost one) fails every test of is_instance and the value is
+   reported invalid; [true] = what the property demands: a NewType stands for its supertype. *)
 Section WithEnv.
 Variable e : henv.
+Variable v_nti : bool.
 
 Fixpoint is_instance (t : ty) (v : val) {struct t} : bool :=
   (* zip(value, args) under all(): lengths are equal when this is called *)
@@ -23,6 +27,7 @@ Fixpoint is_instance (t : ty) (v : val) {struct t} : bool :=
   (* 431: if is_union(type_): return any(is_instance(value, t) for t in get_args(type_)) *)
   else match t with
   | TUnion ts => existsb (fun a => is_instance a v) ts
+  | TNewType a => v_nti && is_instance a v     (* code: isinstance raises TypeError, every later test is False *)
   | _ =>
   (* 434-441: numeric tower, then the raw isinstance; TypeError -> pass *)
   if (is_float_scal t && is_int_or_float v)
@@ -71,11 +76,16 @@ Fixpoint is_instance (t : ty) (v : val) {struct t} : bool :=
 Definition check_fields (fs : list (pystr * ty * val)) : list pystr :=
   map (fun x => fst (fst x)) (filter (fun x => negb (is_instance (snd (fst x)) (snd x))) fs).
 
+(* types.py:28 _TYPE_TO_ALL_FIELDS = {**child fields, **properties}: the check visits the child fields first *)
+Definition is_child_ty (t : ty) : bool := match classify true t with VChild => true | _ => false end.
+Definition all_fields_order (fs : list (pystr * ty * val)) : list (pystr * ty * val) :=
+  filter (fun x => is_child_ty (snd (fst x))) fs ++ filter (fun x => negb (is_child_ty (snd (fst x)))) fs.
+
 Inductive built := Built (fs : list (pystr * val)) | RaisedInvalidTypes (bad : list pystr).
 (* node.py:205: the check is gated by config.RUNTIME_TYPE_CHECK; everything after the gate is the same code *)
 Definition construct (switch : bool) (fs : list (pystr * ty * val)) : built :=
   if switch then
-    match check_fields fs with
+    match check_fields (all_fields_order fs) with
     | [] => Built (map (fun x => (fst (fst x), snd x)) fs)
     | bad => RaisedInvalidTypes bad
     end
